@@ -280,8 +280,28 @@ WMove(files, src, dst) ==
          IF ~r1.ok THEN WFail(files)
          ELSE LET r2 == WDelete(r1.f, src) IN IF r2.ok THEN r2 ELSE WFail(files)
 
+(* IH5Dataset.__setitem__ (element write): passed through to the newest         *)
+(* container, refused unless the dataset lives there                             *)
+WSetElem(files, p, k, b) ==
+    LET view == View(files) last == LastC(files) IN
+    IF ~H5!IsData(view, p) \/ ~H5!IsArr(H5!NodeAt(view, p).v) \/ k \notin 0..2 \/ b \notin 0..1
+       \/ CidxOf(files, p) # Len(files)
+    THEN WFail(files)
+    ELSE WOk(files, RawReplace(last, [RawAt(last, p) EXCEPT !.v = H5!ElemSet(@, k, b)]))
+
+(* IH5Dataset.copy_into_patch: files[-1][path] = self[()]                         *)
+WCopyIntoPatch(files, p) ==
+    LET view == View(files) last == LastC(files) IN
+    IF ~H5!IsData(view, p) \/ CidxOf(files, p) = Len(files) \/ ~RawCanCreate(last, p)
+    THEN WFail(files)
+    ELSE WOk(files, RawCreate(last, RawData(p, H5!NodeAt(view, p).v)))
+
+PatchAwareOps == {"set_elem", "copy_into_patch"}
+
 Write(files, e) ==
     CASE e.op = "create_group"  -> WCreateGroup(files, e.p)
+      [] e.op = "set_elem"      -> WSetElem(files, e.p, e.k, e.b)
+      [] e.op = "copy_into_patch" -> WCopyIntoPatch(files, e.p)
       [] e.op = "set_dataset"   -> WSetDataset(files, e.p, e.v)
       [] e.op = "delete"        -> WDelete(files, e.p)
       [] e.op = "set_attr"      -> WSetAttr(files, e.p, e.key, e.v)
